@@ -170,8 +170,8 @@ def ob_tables(ctx):
         facts.append(('omegas[%d]·omegas_inv[%d] ≡ 1' % (i, i), (z3.IntVal(tabs['omegas'][i]) * z3.IntVal(tabs['omegas_inv'][i])) % P == 1))
         facts.append(('2^%d·domain_size_inverse[%d] ≡ 1' % (i, i), (z3.IntVal(2**i) * z3.IntVal(tabs['domain_size_inverse'][i])) % P == 1))
         facts.append(('rows %d canonical' % i, z3.And([z3.IntVal(tabs[t][i]) < P for t in tabs])))
-    s = z3.Solver(); s.add(z3.Not(z3.And([f for _, f in facts]))); smt.STATS['queries'] += 1
-    if s.check() == z3.unsat: return ok('%d ground facts: omegas = CPU roots, omegas_inv their inverses, domain_size_inverse = 2^-i, all canonical, 33 rows' % len(facts), sample=dict(tables=list(tabs), rows=33))
+    s = z3.Solver(); s.add(z3.Not(z3.And([f for _, f in facts])))
+    if smt.check(s) == z3.unsat: return ok('%d ground facts: omegas = CPU roots, omegas_inv their inverses, domain_size_inverse = 2^-i, all canonical, 33 rows' % len(facts), sample=dict(tables=list(tabs), rows=33))
     for lab, f in facts:
         s = z3.Solver(); s.add(z3.Not(f))
         if s.check() == z3.sat: return viol('tables', 'device table fact fails: %s' % lab, replay=dict(event=lab))
